@@ -62,6 +62,7 @@ Init == /\ phase = "cfg"
         /\ cfg \in Cfgs
         /\ [lib |-> cfg.lib, elt |-> cfg.elt] \in LoadCases
         \* the profile layouts are explored on the plain configuration only (library policy, no degree setting, no offsets)
+        /\ cfg.degKind = "pch0" => cfg.elt = {}
         /\ cfg.prof # "single" => (cfg.elt = {} /\ cfg.degKind = "none" /\ \A k \in Chan : cfg.offset[k] = 0)
         /\ ~ConfigAccepted(cfg.lib, cfg.elt) =>
               /\ cfg.degKind = CHOOSE d \in DegKinds : TRUE
